@@ -104,7 +104,7 @@ def dst_address(rs, mode, r):
 ARITH = {0x6: "ADD", 0x7: "ADC", 0x8: "SUB", 0x9: "AND", 0xA: "OR", 0xB: "MUL", 0xC: "DIV", 0xD: "XOR"}
 
 
-def expected(first, second=None, taken=None):
+def expected(first, second=None, taken=None, fetch=True):
     """-> (RefState, mnemonic) or None when the byte is not a defined instruction"""
     rs = RefState()
     hi, lo = first >> 4, first & 15
@@ -281,5 +281,6 @@ def expected(first, second=None, taken=None):
             return None
     else:
         return None
-    rs.fetch_next()
+    if fetch:
+        rs.fetch_next()
     return rs, name
